@@ -35,6 +35,20 @@ def make_config(tmp, overrides, sources):
         p = tmp / fn
         p.write_text(text)
         paths.append(p)
+    # codepoints and glyph names come from the file names, through the code the glyphmap step runs
+    # (the cps in `sources` are what the caller intends and checks against)
+    # (write_glyphmap._glyphmappings = codepoints.from_filename(stem) + glyph_name(cps); the module itself cannot be
+    # imported next to nanoemoji.config: both define the flag output_file)
+    from collections import namedtuple
+
+    from nanoemoji import codepoints as cpmod
+
+    GM = namedtuple("GM", "codepoints glyph_name")
+    by_stem = {}
+    for p in paths:
+        c = tuple(cpmod.from_filename(p.stem))
+        by_stem[p.stem] = GM(c, glyph_name(c))
+    sources = [(fn, text, tuple(by_stem[Path(fn).stem].codepoints), png) for fn, text, cps, png in sources]
     fea = tmp / "features.fea"
     fea.write_text(features.generate_fea([tuple(cps) for _, _, cps, _ in sources]))
     cfg = cfgmod.load(None, additional_srcs=tuple(paths))._replace(family="Verif", fea_file=str(fea))
@@ -57,7 +71,7 @@ def make_config(tmp, overrides, sources):
                 svg.clip_to_viewbox(inplace=True)
             pico_text = svg.tostring(pretty_print=True)
             svg = SVG.fromstring(pico_text)  # what the worker parses from the picosvg file
-        inputs.append(write_font.InputGlyph(p if svg is not None else None, bitmap_file, tuple(cps), glyph_name(tuple(cps)), svg, bitmap))
+        inputs.append(write_font.InputGlyph(p if svg is not None else None, bitmap_file, tuple(cps), by_stem[p.stem].glyph_name, svg, bitmap))
         picos.append(pico_text)
     return cfg, inputs, picos
 
